@@ -207,7 +207,14 @@ def broadcast_binary_op(a1: ArrayOrScalar, a2: ArrayOrScalar,
                         non_equality_tags: frozenset[Tag],
                         cast_to_result_dtype: bool,
                         is_pow: bool,
+                        operand_dtype: np.dtype[Any] | None = None,
                         ) -> ArrayOrScalar:
+    """
+    :arg operand_dtype: If given (and *cast_to_result_dtype*), the typed
+        operands (arrays, NumPy scalars) are cast to this type instead of the
+        result type (comparisons: the result is a Boolean, the comparison is
+        made in the promoted operand type). Python scalars are left alone.
+    """
     from pytato.array import _get_default_axes
 
     if np.isscalar(a1) and np.isscalar(a2):
@@ -220,6 +227,7 @@ def broadcast_binary_op(a1: ArrayOrScalar, a2: ArrayOrScalar,
     # that we are passing a pytato array to numpy. Luckily, np.result_type
     # only looks at the dtype of input arrays as of numpy v2.1.
     result_dtype = get_result_type(a1, a2)
+    cast_dtype = result_dtype if operand_dtype is None else operand_dtype
 
     bindings: dict[str, Array] = {}
 
@@ -233,23 +241,23 @@ def broadcast_binary_op(a1: ArrayOrScalar, a2: ArrayOrScalar,
                 expr: ScalarExpression | Bool
             ) -> ScalarExpression | Bool:
         if ((isinstance(array, Array | np.generic))
-                and array.dtype != result_dtype):
+                and array.dtype != cast_dtype):
             # Loopy's type casts don't like casting to bool
-            assert result_dtype != np.bool_
+            assert cast_dtype != np.bool_
 
             # See https://github.com/inducer/pytato/issues/542
             # on why pow() + integers is not typecast to float or complex.
             if not (is_pow
                     and np.issubdtype(array.dtype, np.integer)
-                    and not np.issubdtype(result_dtype, np.integer)):
-                expr = TypeCast(result_dtype, expr)
-        elif isinstance(expr, SCALAR_CLASSES):
+                    and not np.issubdtype(cast_dtype, np.integer)):
+                expr = TypeCast(cast_dtype, expr)
+        elif isinstance(expr, SCALAR_CLASSES) and operand_dtype is None:
             # See https://github.com/inducer/pytato/issues/542
             # on why pow() + integers is not typecast to float or complex.
             if not (is_pow
                     and np.issubdtype(type(expr), np.integer)
-                    and not np.issubdtype(result_dtype, np.integer)):
-                expr = result_dtype.type(expr)
+                    and not np.issubdtype(cast_dtype, np.integer)):
+                expr = cast_dtype.type(expr)
 
         return expr
 
